@@ -1,4 +1,5 @@
 import MementoModel.Model.Store
+import MementoModel.Model.Crash
 import Driver.Common
 open Memento Memento.Store Driver
 
@@ -8,6 +9,7 @@ inductive St
   | none
   | mem (s : MemBackend)
   | fs (s : FsBackend)
+  | crash (s : FsBackend) (ps : List Prim) (scratch : DS)   -- C08: a pending memoize request and a damaged copy
 
 def pair? (s : String) : Option (Nat × Nat) :=
   match s.splitOn ":" with
@@ -56,8 +58,47 @@ def blobs (d : DS) : String :=
     s!"{tag}{i}:{countVersions d k}:{if (alookup d.links k).isSome then 1 else 0}"
   joinWith "," (cs.map (fun h => showK "c" (.content h) h) ++ os.map (fun o => showK "o" (.override o) o))
 
+def showArea : K → String
+  | .content _ => "c"
+  | .override _ => "ov"
+  | .memento .. => "m"
+  | .mdat .. => "m"
+
+def showPrim : Prim → String
+  | .writeObj k _ _ => s!"writeObj:{showArea k}"
+  | .writeTmp => "writeTmp"
+  | .replaceLink k _ => s!"replace:{showArea k}"
+  | .removeLink k => s!"remove:{showArea k}"
+
+def natList? (s : String) : Option (List Nat) :=
+  if s = "-" then some [] else (s.splitOn ",").mapM nat?
+
+def fsOf : St → Option FsBackend
+  | .fs s => some s
+  | .crash s _ _ => some s
+  | _ => Option.none
+
 def stepLine (st : St) (t : List String) : St × String :=
   match t with
+  | ["prims", f, a, ov, m, bs] =>
+    match nat? f, nat? a, optNat? ov, nat? m, natList? bs, fsOf st with
+    | some f, some a, some ov, some m, some bs, some s =>
+      let ps := memoizePrims s.ds ⟨f, a, ov, m, bs⟩
+      (.crash s ps s.ds, joinWith " " (ps.map showPrim))
+    | _, _, _, _, _, _ => (st, "bad-op")
+  | ["variant", n, torn] =>
+    match nat? n, bool? torn, st with
+    | some n, some torn, .crash s ps _ => (.crash s ps (variant s.ds ps n torn), "ok")
+    | _, _, _ => (st, "bad-op")
+  | ["outcome", f, a] =>
+    match nat? f, nat? a, st with
+    | some f, some a, .crash _ _ d =>
+      (st, match callOutcome d f a with
+        | .served (some b) => s!"served:{b}"
+        | .served Option.none => "served:null"
+        | .computed => "computed"
+        | .raised => "raised")
+    | _, _, _ => (st, "bad-op")
   | ["init", "mem", ro] => match bool? ro with
     | some ro => (.mem (MemBackend.init ro), "ok")
     | Option.none => (st, "bad-op")
@@ -85,6 +126,7 @@ def stepLine (st : St) (t : List String) : St × String :=
   | _ => match parseOp t, st with
     | some op, .mem s => let (s', o) := MemBackend.step s op; (.mem s', showOut o)
     | some op, .fs s => let (s', o) := FsBackend.step s op; (.fs s', showOut o)
+    | some op, .crash s _ _ => let (s', o) := FsBackend.step s op; (.fs s', showOut o)
     | _, _ => (st, "bad-op")
 
 end StoreDriver
